@@ -12,6 +12,9 @@
  *
  *   INFO                              map types / key / value sizes / max_entries
  *   RESET                             empty all maps, forget in-flight connects
+ *   CAPS p s a l                      max_entries the agent's loader asked the kernel for when it created
+ *                                     policy_map, skip_process_map, audit_map, local_map (BPF_MAP_CREATE); the
+ *                                     declared values are used until then
  *   P+ k0..k5 v0..v5                  bpf(2) update of policy_map        (aya HashMap::insert, flags 0)
  *   P- k0..k5                         bpf(2) delete in policy_map        (aya HashMap::remove)
  *   S k0 v0                           bpf(2) update of skip_process_map
@@ -167,6 +170,13 @@ int main(void)
             }
             printf(",%u,%u,%u]", (unsigned)BPF_MAP_TYPE_HASH, (unsigned)BPF_MAP_TYPE_LRU_HASH,
                    (unsigned)sizeof(struct sock_common));
+        } else if (!strcmp(op, "CAPS")) {
+            need(n, 4, "CAPS");
+            maps_set_max_entries(&policy_map, w[0]);
+            maps_set_max_entries(&skip_process_map, w[1]);
+            maps_set_max_entries(&audit_map, w[2]);
+            maps_set_max_entries(&local_map, w[3]);
+            fputs("[[]", stdout);
         } else if (!strcmp(op, "RESET")) {
             maps_reset();
             memset(inflight, 0, sizeof inflight);
